@@ -271,7 +271,9 @@ def oracle_contain(m, spec, res, T):
                                 'never ran although its layers could be set up: %r' % (miss[:5],)))
     viols += oracle_layers(m, res, T, only_leftover=True)
     groups = {(o['pid'], o['layer'], o['occ']) for o in T.occs}
-    expected = len(groups) + (1 if (spec['opt'].get('j') or 1) > 1 else 0)
+    # with -j N the parent runs the empty pseudo layer itself: one summary per iteration
+    expected = len(groups) + ((spec['opt'].get('repeat') or 1)
+                              if (spec['opt'].get('j') or 1) > 1 else 0)
     got = len(C.RAN_RE.findall(res.text))
     if got != expected and not spec['opt'].get('x'):
         viols.append(C.viol('C04/summary-lines',
